@@ -1,6 +1,7 @@
 package props
 
 import (
+	"unicode"
 	"encoding/hex"
 	"fmt"
 	"regexp"
@@ -269,6 +270,31 @@ func runSeqhash(w *mon.W, c05 bool) {
 						}
 					}
 				}
+				w.End()
+			}
+		}
+		// letters that take more than one byte are outside every alphabet too (left out: the few whose Unicode
+		// upper-case form is an ASCII letter, e.g. dotless i and long s, which upper-casing turns into valid letters)
+		for _, typ := range []string{"DNA", "RNA", "PROTEIN"} {
+			var runes []rune
+			for c := rune(0x100); c < 0x250; c++ {
+				runes = append(runes, c)
+			}
+			runes = append(runes, 0x391, 0x3b1, 0x410, 0x430, 0x212a, 0x212b, 0xff21, 0xff41, 0x1d400, 0x1f9ec, 0xfffd)
+			for _, c := range runes {
+				if unicode.ToUpper(c) < 0x80 || unicode.ToLower(c) < 0x80 {
+					continue
+				}
+				id := fmt.Sprintf("invalid-%s-U+%04X", typ, c)
+				idx++
+				if !w.Want(id, idx) {
+					continue
+				}
+				w.Begin(id, string(c))
+				for _, seq := range []string{string(c), "AC" + string(c) + "GA"} {
+					shReject(w, id, seq, typ, c%2 == 0, false, fmt.Sprintf("letter U+%04X is outside the %s alphabet", c, typ))
+				}
+				w.Add("multi_byte_letters_rejected", 1)
 				w.End()
 			}
 		}
